@@ -13,7 +13,11 @@ let rec pos_of_int i =
 let n_of_int i = if i = 0 then N0 else Npos (pos_of_int i)
 let rec int_of_pos = function XH -> 1 | XO p -> 2 * int_of_pos p | XI p -> 2 * int_of_pos p + 1
 let int_of_n = function N0 -> 0 | Npos p -> int_of_pos p
-let rec nat_of_int i = if i <= 0 then O else S (nat_of_int (i - 1))
+(* counts are natural numbers in the model: a negative count (which the Go API answers with an error or a
+   panic) is outside the model's domain and must not be silently read as 0 *)
+let rec nat_of_int i =
+  if i < 0 then failwith ("negative count " ^ string_of_int i ^ " is outside the model's domain")
+  else if i = 0 then O else S (nat_of_int (i - 1))
 let rec int_of_nat = function O -> 0 | S k -> 1 + int_of_nat k
 
 let ten = n_of_int 10
